@@ -236,7 +236,13 @@ impl BlockData {
         }
 
         match self.last_slice {
-            None if is_last => self.mark_last_slice(slice_index),
+            None if is_last => {
+                // a stored shred of a later slice contradicts this last-slice marker
+                if self.shreds.keys().any(|&ind| ind > slice_index) {
+                    return Err(AddShredError::Equivocation);
+                }
+                self.mark_last_slice(slice_index);
+            }
             None => {}
             Some(l) => {
                 let consistent = (slice_index < l && !is_last) || (slice_index == l && is_last);
